@@ -21,14 +21,21 @@ static thread_local bool g_abort_flag = false;
 
 using namespace rlbox;
 using W = __int128;
-using Sbx = rlbox_vm_sandbox<vm_abi_wasm32, 12>;
+#if defined(ABI_LP16)
+using Abi = vm_abi_lp16;
+#elif defined(ABI_LP64U)
+using Abi = vm_abi_lp64u;
+#else
+using Abi = vm_abi_wasm32;
+#endif
+using Sbx = rlbox_vm_sandbox<Abi, 12>;
 using RS = rlbox_sandbox<Sbx>;
 
 static tr::Out out;
 static RS* sb;
 static uintptr_t BASE;
 
-// ---- the harness' own statement of the wasm32 guest type of each application type ----
+// ---- the harness' own statement of the guest type of each application type under the ABI in use ----
 template<typename T, typename = void>
 struct GInfo
 {
@@ -39,14 +46,36 @@ struct GInfo
 template<>
 struct GInfo<long>
 {
-  static constexpr int bits = 32;
+  static constexpr int bits = 8 * sizeof(Abi::T_LongType);
   static constexpr bool sgn = true;
   static constexpr char cls = 'i';
 };
 template<>
 struct GInfo<unsigned long>
 {
-  static constexpr int bits = 32;
+  static constexpr int bits = 8 * sizeof(Abi::T_LongType);
+  static constexpr bool sgn = false;
+  static constexpr char cls = 'i';
+};
+template<>
+struct GInfo<int>
+{
+  static constexpr int bits = 8 * sizeof(Abi::T_IntType);
+  static constexpr bool sgn = true;
+  static constexpr char cls = 'i';
+};
+template<>
+struct GInfo<unsigned>
+{
+  static constexpr int bits = 8 * sizeof(Abi::T_IntType);
+  static constexpr bool sgn = false;
+  static constexpr char cls = 'i';
+};
+// char32_t is an unsigned type of int's rank: the ABI mapping treats it like unsigned int
+template<>
+struct GInfo<char32_t>
+{
+  static constexpr int bits = 8 * sizeof(Abi::T_IntType);
   static constexpr bool sgn = false;
   static constexpr char cls = 'i';
 };
@@ -74,14 +103,14 @@ struct GInfo<double>
 template<typename T>
 struct GInfo<T*, std::enable_if_t<!std::is_function_v<T>>>
 {
-  static constexpr int bits = 32;
+  static constexpr int bits = 8 * sizeof(Abi::T_PointerType);
   static constexpr bool sgn = false;
   static constexpr char cls = 'p';
 };
 template<typename T>
 struct GInfo<T*, std::enable_if_t<std::is_function_v<T>>>
 {
-  static constexpr int bits = 32;
+  static constexpr int bits = 8 * sizeof(Abi::T_PointerType);
   static constexpr bool sgn = false;
   static constexpr char cls = 'c'; // callback / function pointer
 };
